@@ -145,7 +145,7 @@ def load_case(case):
         if not items:
             items = list(qs.conditionals.items())[: case["nq"]]
         return bb, Queries(dict(items))
-    bb = impl.build_base(case["sig"], case["base"], via=case.get("via", "api"))
+    bb = impl.build_base(case["sig"], case["base"], via=case.get("via", "api"), keys=infer.key_layout(case))
     qs = impl.build_queries(case["qs"], via="api")
     return bb, qs
 
